@@ -54,6 +54,8 @@ ASSUMPTIONS = [
     "no Pillow in the sandbox: DCT data is compared byte for byte, CMYK/JPX conversions are outside the property",
 ]
 STATEMENT_STATUS = {
+    "C18_branch_table": "proved (decision table of export_image over plausibility, filters, bits, colour space: total, rows disjoint)",
+    "C18_export_by_branch": "proved (export_image = what the selected row does; tied by spying on the _save_* calls)",
     "C18_bmp_rt": "proved (gray-8, RGB-8, 1-bit; all w,h >= 1 within BMP limits; any lossless filter list; any listing)",
     "C18_bmp_rt_pixelwise / C18_samples_pixelwise": "proved (same, against the index-based meaning of samples)",
     "C18_bmp_pinned_cex": "proved counter-example for the pinned writer (padding, R/B order)",
@@ -204,6 +206,23 @@ def bits_of(img) -> int:
     return img.get("bits", 1 if img["kind"] == "bit1" else 8)
 
 
+LAST_BRANCHES: List[Optional[str]] = []
+_BRANCH_NAME = {"_save_jpeg": "jpeg", "_save_jpeg2000": "jpx", "_save_jbig2": "jbig2", "_save_bytes": "bytes", "_save_raw": "raw"}
+
+
+def _branch_of_calls(calls, returned: bool) -> Optional[str]:
+    """Name of the export_image branch from the recorded `_save_*` calls (None: an exception before any branch)."""
+    if len(calls) > 1:
+        return "several:" + ",".join(c[0] for c in calls)
+    if not calls:
+        return "undecoded" if returned else None
+    meth, a = calls[0]
+    if meth == "_save_bmp":
+        # _save_bmp(image, width, height, bytes_per_line, bits)
+        return "bmp%d bpl=%d depth=%d" % (a[4], a[3], a[4])
+    return _BRANCH_NAME[meth]
+
+
 def export_direct(imgs: List[Dict[str, Any]], rng=None, preexisting: Optional[List[str]] = None):
     """ImageWriter.export_image on LTImage objects built directly.  Returns
     [(name | None, file bytes | None, exception name | None)] in order, plus the final directory listing."""
@@ -218,14 +237,29 @@ def export_direct(imgs: List[Dict[str, Any]], rng=None, preexisting: Optional[Li
             with open(os.path.join(out, n), "wb") as fp:
                 fp.write(b"old")
         iw = ImageWriter(out)
+        # round 6: which `_save_*` method export_image selects (and the arguments of `_save_bmp`) is recorded per image
+        calls: List[Any] = []
+        LAST_BRANCHES.clear()
+
+        def _spy(meth, orig):
+            def w(*a, **k):
+                calls.append((meth, a))
+                return orig(*a, **k)
+            return w
+        for meth in ("_save_jpeg", "_save_jpeg2000", "_save_jbig2", "_save_bmp", "_save_bytes", "_save_raw"):
+            setattr(iw, meth, _spy(meth, getattr(iw, meth)))
         for img in imgs:
+            calls.clear()
+            LAST_BRANCHES.append(None)
             try:
                 st = make_stream(img, rng)
                 lt = LTImage(img["name"], st, (0, 0, 1, 1))
                 name = iw.export_image(lt)
+                LAST_BRANCHES[-1] = _branch_of_calls(calls, True)
                 with open(os.path.join(out, name), "rb") as fp:
                     res.append((name, fp.read(), None))
             except Exception as e:  # noqa: BLE001
+                LAST_BRANCHES[-1] = _branch_of_calls(calls, False)
                 res.append((None, None, type(e).__name__))
         listing = sorted(os.listdir(out))
         untouched = all(open(os.path.join(out, n), "rb").read() == b"old" for n in preexisting or [])
@@ -545,9 +579,15 @@ def struct_depth(blob: bytes) -> int:
 
 def check_export_direct(ctx: C.Ctx, imgs: List[Dict[str, Any]], pre: List[str], lines, impl, inputs, tag="gen"):
     res, listing, untouched = export_direct(imgs, ctx.rng, pre)
+    branches = list(LAST_BRANCHES)
     existing = list(pre)
     names = []
-    for img, (name, blob, exc) in zip(imgs, res):
+    for (img, (name, blob, exc)), br in zip(zip(imgs, res), branches):
+        if br is not None:
+            lines.append("branch %s %s %d %d %d" % (flt_code(img.get("filters", [])), cs_wire(img), bits_of(img), img["w"], img["h"]))
+            impl.append(br)
+            inputs.append(("branch", {"images": [img], "pre": []}))
+            ctx.branch("branch:" + br.split(" ")[0])
         data = bytes.fromhex(img["data"])
         nontriv = len(set(data)) > 1
         ctx.case(("exp", img["kind"], img["w"], img["h"], img["data"], tuple(img.get("filters", [])), img["name"]),
@@ -601,6 +641,69 @@ def check_export_direct(ctx: C.Ctx, imgs: List[Dict[str, Any]], pre: List[str], 
                            {"area": "names"}))
 
 
+_PDF_FILTER = {"Flate": "FlateDecode", "DCT": "DCTDecode", "JPX": "JPXDecode", "JBIG2": "JBIG2Decode", "LZW": "LZWDecode",
+               "CCF": "CCITTFaxDecode", "A85": "ASCII85Decode", "AHx": "ASCIIHexDecode", "RL": "RunLengthDecode"}
+_TABLE_FILTERS = [[], ["Flate"], ["Flate", "Flate"], ["DCT"], ["Flate", "DCT"], ["DCT", "Flate"], ["JPX"], ["A85", "JPX"],
+                  ["JPX", "Flate"], ["JBIG2"], ["JBIG2", "Flate"], ["JBIG2", "DCT"], ["Flate", "JBIG2"], ["LZW"], ["CCF"],
+                  ["A85", "Flate"]]
+_TABLE_CS = [None, ["DeviceGray"], ["DeviceRGB"], ["G"], ["RGB"], ["DeviceCMYK"], ["Indexed", "DeviceRGB", 1], ["Lab"],
+             ["DeviceGray", "DeviceRGB"], []]
+_TABLE_GEOM = [(1, 3, 2), (2, 3, 2), (8, 3, 2), (8, 1, 1), (16, 2, 1), (32, 1, 1), (33, 1, 1), (8, 0, 1), (1, 2 ** 31, 1)]
+
+
+def run_branch_table(ctx: C.Ctx, lines, impl, inputs) -> None:
+    """Round 6: the branch selection of export_image alone, over the whole cross product filters x colour space x
+    (bits, w, h), with ImageMask / Decode entries thrown in (the code does not look at them): the `_save_*` methods are
+    replaced by recording stubs, so nothing is decoded and JPX / JBIG2 / Pillow branches are reachable."""
+    from pdfminer.image import ImageWriter
+    from pdfminer.layout import LTImage
+    from pdfminer.pdftypes import PDFStream
+    d = tempfile.mkdtemp(prefix="c18t_")
+    try:
+        iw = ImageWriter(os.path.join(d, "out"))
+        calls: List[Any] = []
+
+        def _stub(meth):
+            def w(*a, **k):
+                calls.append((meth, a))
+                return "stub"
+            return w
+        for meth in ("_save_jpeg", "_save_jpeg2000", "_save_jbig2", "_save_bmp", "_save_bytes", "_save_raw"):
+            setattr(iw, meth, _stub(meth))
+        combos = [(f, c, g) for f in _TABLE_FILTERS for c in _TABLE_CS for g in _TABLE_GEOM]
+        if ctx.tier == "quick" and ctx.boost == 1:
+            combos = [x for i, x in enumerate(combos) if i % 2 == ctx.rng.randrange(2) or x[0] in (["JPX"], ["JBIG2"])]
+        for k, (flt, cs, (bits, w, h)) in enumerate(combos):
+            attrs: Dict[str, Any] = {"Width": w, "Height": h, "BitsPerComponent": bits}
+            if cs is not None:
+                vals = [(_lit(x) if isinstance(x, str) else x) for x in cs]
+                attrs["ColorSpace"] = vals[0] if len(vals) == 1 and k % 3 == 0 else vals
+            if flt:
+                attrs["Filter"] = _lit(_PDF_FILTER[flt[0]]) if len(flt) == 1 and k % 2 == 0 else [_lit(_PDF_FILTER[f]) for f in flt]
+            if k % 5 == 0:
+                attrs["ImageMask"] = True
+            if k % 7 == 0:
+                attrs["Decode"] = [1, 0]
+            st = PDFStream(attrs, b"")
+            st.data = b"\x01\x02\x03"          # already "decoded": the stubs never look at it
+            calls.clear()
+            try:
+                iw.export_image(LTImage("T%d" % (k % 3), st, (0, 0, 1, 1)))
+                br = _branch_of_calls(calls, True)
+            except Exception as e:  # noqa: BLE001
+                br = "E:" + type(e).__name__
+            img = {"kind": "other", "filters": flt, "cslist": cs, "bits": bits, "w": w, "h": h, "name": "T", "data": "010203",
+                   "place": "xobj", "domain": False}
+            ctx.case(("branchtable", tuple(flt), str(cs), bits, w, h), True, branch="branch-table")
+            ctx.branch("branch:" + br.split(" ")[0])
+            lines.append("branch %s %s %d %d %d" % (flt_code(flt), cs_wire(img), bits, w, h))
+            impl.append(br)
+            inputs.append(("branch", {"table": True, "filters": flt, "cs": cs, "bits": bits, "w": w, "h": h,
+                                      "imagemask": k % 5 == 0, "decode": k % 7 == 0}))
+    finally:
+        shutil.rmtree(d, ignore_errors=True)
+
+
 def run_export(ctx: C.Ctx) -> None:
     rng = ctx.rng
     lines: List[str] = []
@@ -608,6 +711,7 @@ def run_export(ctx: C.Ctx) -> None:
     inputs: List[Any] = []
     n = ctx.n(1200, 20000)
     idx = 0
+    run_branch_table(ctx, lines, impl, inputs)
     # systematic part: every kind x every row-byte residue x unfiltered/filtered
     for kind in ("gray8", "rgb8", "bit1"):
         for w in (1, 2, 3, 4, 5, 7, 8, 9, 16, 17, 33):
